@@ -56,8 +56,10 @@ def gen_unit(rng):
             e = ("path", 0, (("k", rng.choice(("i", "b", "s", "tw"))),)) if cur.dot == "rec" else ("call", "size", (("path", 0, ()),))  # collapses inputs before --unique
         else:
             e = g.gen(rng.choice(("num", "str", "bool", "any", "arr:num", "int")), cur)
-        u["selects"].append(("c%d" % i, e))
-        cur = eg.Scope(cur.dot, cur.parents, cur.vars, cur.macros, dict(cur.sels, **{"c%d" % i: "any"}), True)
+        # names are whatever follows '=': blanks inside or at the end belong to the name ("c0" and "c0 " are two names)
+        nm = ("c%d" % i) + (rng.choice((" ", "  ", "\u00a0", " x", "\u00e9")) if rng.random() < 0.12 else "")
+        u["selects"].append((nm, e))
+        cur = eg.Scope(cur.dot, cur.parents, cur.vars, cur.macros, dict(cur.sels, **{"c%d" % i: "any"}) if nm == "c%d" % i else cur.sels, True)
     for _ in range(rng.choice((0, 0, 1, 1, 2, 3))):
         r = rng.random()
         if r < 0.3 and cur.dot == "rec":
